@@ -333,6 +333,9 @@ def blocks_of(hists, events):
         if not evs:
             continue
         b = [hist_event(h)]
+        listening = {nd["id"]: nd["listen"] for nd in h["_nodes"]}
+        upds = [o for o in h["ops"] if o["op"] == "upd"]
+        nu = 0
         for e in evs:
             ev = e["ev"]
             if ev == "init":
@@ -341,12 +344,31 @@ def blocks_of(hists, events):
                 b.append(dict(ev="add", node=e["node"]))
             elif ev == "del":
                 b.append(dict(ev="del", slot=e["slot"]))
+            elif ev == "upd":
+                o = upds[nu]
+                nu += 1
+                if o["node"] != e["node"] or o["slot"] != e["slot"]:
+                    raise Machinery("driver and scenario disagree on update %d of history %d" % (nu, h["h"]))
+                info = dict(cls=o["cls"], addr=e.get("addr", ""), was=e.get("from", ""), now=e.get("now", ""),
+                            adopted=bool(e.get("adopted")))
+                if e.get("err"):
+                    b.append(dict(ev="unexpected", what="UpdateDestination failed", detail=json.dumps(e)[:300]))
+                elif listening[e["node"]]:
+                    # the address accepts connections: the slot now is this node
+                    b.append(dict(ev="upd", slot=e["slot"], node=e["node"], info=info))
+                else:
+                    # the address refuses: Destination.updateConn does not take it over
+                    b.append(dict(ev="updno", slot=e["slot"], info=info))
             elif ev == "ring":
                 b.append(dict(ev="ring", ndest=e["ndest"], dl=e["dl"], ring=e["ring"]))
             elif ev == "disp":
-                if any(e.get("online", [])):
-                    raise Machinery("a destination on a refusing address came online: the counter observation is void")
-                b.append(dict(ev="disp", got=e["got"]))
+                if e.get("missed") or e.get("ambiguous") or e.get("flusherrs"):
+                    raise Machinery("history %d: the observation of a dispatch batch is void (sentinel not received from "
+                                    "destinations %s, ambiguous listener=%s, flush errors=%s)" % (
+                                        h["h"], e.get("missed"), e.get("ambiguous"), e.get("flusherrs")))
+                if e.get("extra"):
+                    raise Machinery("history %d: a listener received %d lines that are no key of the history" % (h["h"], e["extra"]))
+                b.append(dict(ev="disp", got=e["got"], nonline=e.get("nonline", 0)))
             elif ev == "end":
                 pass
             else:
@@ -429,6 +451,7 @@ def validate(ctx, blocks, on_reject, par=1, tagp="tr", max_rounds=12):
 
 def selftest_binding(ctx, blocks):
     """one corrupted field in an accepted trace must be rejected exactly there"""
+    all_blocks = blocks
     # a history that starts with at least two destinations
     blocks = [x for x in blocks if len(x) > 3 and x[1]["ev"] == "init" and len(x[1]["members"]) >= 2][:1] or blocks
     b = copy.deepcopy(blocks[0])
@@ -468,6 +491,21 @@ def selftest_binding(ctx, blocks):
             raise Machinery("binding self-test C failed: a key position shifted past a ring entry was not rejected at line %d (matched %s)" % (didx, matched))
     else:
         ctx.note("binding self-test C skipped: no key sits on a ring position with a different successor")
+    # D: after an address update to another instance on the same host the ring of before the update
+    # (what a route that does not re-derive its ring would dispatch with) must be rejected there
+    for blk in all_blocks:
+        u = next((i for i, r in enumerate(blk) if r["ev"] == "upd" and r["info"]["cls"] == UPD_CLASSES[0]), None)
+        if u is None or blk[u + 1]["ev"] != "ring":
+            continue
+        b = copy.deepcopy(blk)
+        before = [r for r in b[:u] if r["ev"] == "ring"][-1]
+        b[u + 1]["ring"] = before["ring"]
+        ok, matched, bad, _ = tlc_trace(ctx, b, "selfD", 93)
+        if ok or matched != u + 1:
+            raise Machinery("binding self-test D failed: the stale ring after an address update was not rejected at line %d (matched %s)" % (u + 1, matched))
+        break
+    else:
+        raise Machinery("binding self-test D: no accepted history with an address update to another instance on the same host")
     ctx.cov["binding_selftests"] = "passed"
 
 
@@ -478,14 +516,26 @@ def run(ctx):
 
     rng = random.Random(ctx.seed * 7919 + 15)
     q = ctx.quick()
-    # quick: 6 node sets x 3 listing orders x (1 + 3 changes) x 400 keys (+1 history with 5000 keys)
-    hists = gen_histories(ctx, rng, ctx.pick(6, 30), 3, ctx.pick(400, 1000), ctx.pick(3, 5))
-    big = gen_histories(ctx, rng, ctx.pick(1, 2), 1, ctx.pick(5000, 50000), ctx.pick(2, 3), engineered_share=1.0)
-    for b in big:
-        b["h"] = len(hists)
-        b["route"] += "_big%d" % b["h"]
-        hists.append(b)
-    ctx.log("histories: %d (%d key lookups planned)" % (len(hists), sum(len(h["keys"]) * (1 + len(h["ops"])) for h in hists)))
+    # quick: 6 node sets x 3 listing orders x (1 + 4 changes) x 400 keys, 1 history with 5000 keys,
+    # 2 probe histories (address update to the same host:port with another instance)
+    hists = gen_histories(ctx, rng, ctx.pick(6, 30), 3, ctx.pick(400, 1000), ctx.pick(4, 6))
+    nsmall = len(hists)
+    gen_histories(ctx, rng, ctx.pick(1, 2), 1, ctx.pick(5000, 50000), ctx.pick(2, 3), engineered_share=1.0, hists=hists)
+    for b in hists[nsmall:]:
+        b["route"] += "_big"
+    gen_probes(ctx, rng, hists, ctx.pick(2, 4), 200)
+    for h in hists:
+        if len(set(h["keys"])) != len(h["keys"]):
+            raise Machinery("history %d: duplicate key names (lines at a listener are attributed by name)" % h["h"])
+    planned = {}
+    for h in hists:
+        for o in h["ops"]:
+            if o["op"] == "upd":
+                planned[o["cls"]] = planned.get(o["cls"], 0) + 1
+    ctx.log("histories: %d (%d key lookups planned; address updates %s)" % (
+        len(hists), sum(len(h["keys"]) * (1 + len(h["ops"])) for h in hists), planned))
+    if planned.get(UPD_CLASSES[0], 0) < 3 or planned.get("other-host", 0) < 1 or planned.get("port-only", 0) < 1:
+        raise Machinery("vacuous scenario set: address updates planned %s" % planned)
 
     events, died = run_driver(ctx, hists, "c15", timeout=ctx.pick(900, 3000))
     if died:
@@ -497,48 +547,78 @@ def run(ctx):
     if not blocks or not any(r["ev"] == "disp" for b in blocks for r in b):
         raise Machinery("dead driver: no dispatch recorded")
 
+    rejected = set()
+
     def on_reject(block, idx, bad, res):
         ev = block[idx]
         h = block[0]["h"]
         hh = hists[h]
+        rejected.add(h)
         info = dict(history={k: v for k, v in hh.items() if k not in ("keys", "_nodes")}, line=idx, tlc=bad[:1], tlc_log=res["log"])
+        info["history"]["nodes"] = [nd["show"] for nd in hh["_nodes"]]
+        change = next((r for r in reversed(block[:idx]) if r["ev"] in ("init", "add", "del", "upd", "updno")), dict(ev="?"))
         if ev["ev"] == "ring":
-            ctx.violation("ring-not-carbon", "the ring of the route (%d entries, %d destinations) is not Carbon's ring "
-                          "(sorted by position, server, instance; 100 replicas per destination) for its destination list %s"
-                          % (len(ev["ring"]), ev["ndest"], ev["dl"]), info)
+            d = bad[0] if bad else {}
+            if change["ev"] in ("upd", "updno"):
+                u = change["info"]
+                info["update"] = u
+                call = "UpdateDestination(%d, addr=%s) on a destination at %s" % (change["slot"], u["addr"], u["was"])
+                if d.get("dl") != d.get("dests"):
+                    ctx.violation("update-not-adopted " + u["cls"], "after %s, an address that accepts connections, the "
+                                  "destinations of the route are the nodes %s, configured are %s: the destination reports %s" % (
+                                      call, d.get("dl"), d.get("dests"), u["now"] or "?"), info)
+                else:
+                    ctx.violation("ring-not-carbon after-update " + u["cls"], "after %s the route dispatches with a ring "
+                                  "(%d entries) that is not Carbon's ring for its destination list %s (the ring was not re-derived "
+                                  "from the (host, instance) pairs now configured?)" % (call, len(ev["ring"]), ev["dl"]), info)
+            else:
+                ctx.violation("ring-not-carbon", "the ring of the route (%d entries, %d destinations) is not Carbon's ring "
+                              "(sorted by position, server, instance; 100 replicas per destination) for its destination list %s"
+                              % (len(ev["ring"]), ev["ndest"], ev["dl"]), info)
         elif ev["ev"] == "disp":
             d = bad[0] if bad else {}
             k = d.get("key", 0)
             name = hh["keys"][k - 1] if k else "?"
             info["key"] = name
             got = d.get("got")
-            if got is not None and not (len(got) == 1 and got[0][1] == 1):
-                ctx.violation("not-exactly-one", "line for %r was accounted by %s (slot, count) instead of exactly one destination" % (name, got), info)
+            sfx = " after-update " + change["info"]["cls"] if change["ev"] in ("upd", "updno") else ""
+            if got is not None and not (len(got) == 1 and got[0][1] == 1 and 0 <= got[0][0] < len(d["dests"])):
+                ctx.violation("not-exactly-one" + sfx, "line for %r was accounted by %s (slot, count; slot < 0: a listener no "
+                              "destination is configured for) instead of exactly one destination" % (name, got), info)
             elif got is not None and d.get("want") is not None and d["dests"][got[0][0]] != d["want"]:
-                ctx.violation("lookup-differs-from-carbon", "key %r (position %s) went to node %s, Carbon sends it to node %s" % (
+                ctx.violation("lookup-differs-from-carbon" + sfx, "key %r (position %s) went to node %s, Carbon sends it to node %s" % (
                     name, d.get("kpos"), d["dests"][got[0][0]], d["want"]), info)
             else:
-                ctx.violation("moved-without-need", "key %r changed owner although the last membership change %s did not require it" % (
+                ctx.violation("moved-without-need" + sfx, "key %r changed owner although the last membership change %s did not require it" % (
                     name, d.get("last")), info)
         else:
             ctx.violation("unexpected-event " + ev["ev"], "event %s rejected" % json.dumps(ev)[:300], info)
 
+    probes = [b for b in blocks if hists[b[0]["h"]]["_probe"]]
+    blocks = [b for b in blocks if not hists[b[0]["h"]]["_probe"]]
     nh, nl = validate(ctx, blocks, on_reject, par=ctx.pick(2, 4))
-    ctx.cov["traces_validated_against_impl"] += nh
-    ctx.cov["trace_events"] = nl
+    # the probe histories on their own (small traces; a known finding costs a round each)
+    ph, pl = validate(ctx, probes, on_reject, par=1, tagp="pr")
+    ctx.cov["traces_validated_against_impl"] += nh + ph
+    ctx.cov["trace_events"] = nl + pl
     if not died and not ctx.violations:
-        selftest_binding(ctx, blocks)
+        selftest_binding(ctx, [b for b in blocks if b[0]["h"] not in rejected])
+    blocks = [b for b in blocks + probes if b[0]["h"] not in rejected]
 
     # ------------------------------------------------------------ evidence
     cov = ctx.cov
     nlook, sets, exact, coll_sets = 0, set(), 0, 0
+    upd_done, online_batches, via_listener = {}, 0, 0
     for b in blocks:
         kp = b[0]["kpos"]
         ent = None
-        for r in b:
+        for i, r in enumerate(b):
+            if r["ev"] in ("upd", "updno") and any(x["ev"] == "disp" for x in b[i:]):
+                upd_done[r["info"]["cls"]] = upd_done.get(r["info"]["cls"], 0) + 1
             if r["ev"] == "ring":
                 ent = r
             elif r["ev"] == "disp" and ent is not None:
+                online_batches += 1 if r["nonline"] else 0
                 nlook += len(kp)
                 members = tuple(sorted(ent["dl"]))
                 key = (b[0]["h"] // 3 if b[0]["h"] < len(hists) else b[0]["h"], members)
@@ -554,12 +634,18 @@ def run(ctx):
     cov["distinct_nontrivial"] = len(sets)
     cov["member_sets_with_cross_node_collisions"] = coll_sets
     cov["keys_exactly_on_a_ring_position"] = exact
+    cov["address_updates_validated"] = upd_done
+    cov["dispatch_batches_with_connected_destinations"] = online_batches
+    if upd_done.get(UPD_CLASSES[0], 0) < 3 and not ctx.violations:
+        raise Machinery("vacuous: only %s address updates to another instance on the same host were validated" % upd_done)
     cov["rule"] = ("evaluations = key lookups of real ConsistentHashing routes decided by HashRingTrace.tla (each: exactly one "
-                   "destination counted the line, it is Carbon's owner, and it moved only as the last add/remove requires); "
+                   "destination accounted for the line, it is Carbon's owner, and it moved only as the last add / remove / "
+                   "address update requires); address_updates_validated = UpdateDestination(addr=) calls by class, each followed "
+                   "by a ring read-back (= Carbon's ring of the (host, instance) pairs now configured) and a dispatch of every key; "
                    "distinct_nontrivial = distinct (node universe, member set) pairs with >= 2 destinations' worth of ring "
                    "whose ring was verified to be Carbon's ring; listing orders: 3 per member set")
     h0 = hists[0]
-    ctx.sample(dict(destinations=[nd["addr"] for nd in h0["nodes"]], init=h0["init"], ops=h0["ops"], keys=h0["keys"][:4]))
+    ctx.sample(dict(destinations=[nd["show"] for nd in h0["_nodes"]], init=h0["init"], ops=h0["ops"], keys=h0["keys"][:4]))
     b0 = blocks[0]
     r0 = next(r for r in b0 if r["ev"] == "ring")
     ctx.sample(dict(ring_head=r0["ring"][:5], ndest=r0["ndest"], kpos_head=b0[0]["kpos"][:5],
@@ -569,7 +655,10 @@ def run(ctx):
         "(transcription of carbon 0.9.x/1.0 ConsistentHashRing, checked against the constants pinned in route/consistent_hashing_test.go)",
         "newer carbon versions bump a colliding replica position by one; the property statement and this check use the classic ring",
         "destinations have distinct (host, instance) pairs; ASCII host and instance names",
-        "the destination that received a line is observed through its conn_down_no_spool counter after a Flush() barrier "
-        "(refusing addresses, no spool); a destination that comes online makes the run exit 2"]
+        "the destination that received a line is observed through its conn_down_no_spool / slow_conn counters after a Flush() "
+        "barrier while it has no connection, and at the loopback listener of the driver whose address it reports otherwise "
+        "(lines attributed by name; one sentinel line per connection as barrier); a void observation makes the run exit 2",
+        "an address update is adopted by Destination.updateConn only after a successful dial: an update to a refusing address "
+        "is expected to leave the member set unchanged (event updno)"]
     cov["trusted_base"] = ["TLC", "tools/carbon_ring.py (MD5 positions only)", "harness/ring driver (records only)",
-                           "hook route.(*ConsistentHashing).VerifRing"]
+                           "hook route.(*ConsistentHashing).VerifRing", "loopback TCP between the route and the driver's listeners"]
